@@ -15,6 +15,7 @@ parse_file (const char *file, eav_t *eav)
     char *line = NULL;
     char *cp = line;
     size_t len = 0;
+    size_t cap = 0; /* size of the buffer that getline manages */
     ssize_t read = 0;
     int passed = 0;
     int failed = 0;
@@ -25,7 +26,7 @@ parse_file (const char *file, eav_t *eav)
         return;
     }
 
-    while ((read = getline (&line, &len, fh)) != EOF)
+    while ((read = getline (&line, &cap, fh)) != EOF)
     EAV_VERIF_LOOP(parse_file)
     {
         EAV_VERIF_STEP(parse_file)
